@@ -22,7 +22,7 @@ META = {
         "quick": {"evaluations": 8000, "distinct_nontrivial": 1200, "tables": {"ctor/plain": 800, "ctor/from_blocks": 800, "ctor/from_fill_fn": 800, "ctor/from_dense": 800, "ctor/utils.from_dense": 300, "ctor/random": 300, "roundtrip/to_dense-from_dense": 500, "roundtrip/projection": 800, "kind/generic_str": 300, "kind/generic_obj": 300, "kind/static": 800, "feature/index-from-unsorted-pairs": 300, "history/hash-twin-all": 300, "history/hash-twin-one": 300, "history/one-label": 300}},
         "thorough": {"evaluations": 250000, "distinct_nontrivial": 30000},
     },
-    "wall": {"quick": 300, "thorough": 1500},
+    "wall": {"quick": 900, "thorough": 1500},
 }
 
 
